@@ -5,6 +5,7 @@ import (
 	"encoding/binary"
 	"errors"
 	"fmt"
+	"sort"
 	"testing"
 	"testing/synctest"
 
@@ -12,6 +13,7 @@ import (
 	"github.com/dominant-strategies/go-quai/core/types"
 	"github.com/dominant-strategies/go-quai/p2p/pb"
 	"google.golang.org/protobuf/proto"
+	"google.golang.org/protobuf/reflect/protoreflect"
 
 	"verif/sim/simkit"
 )
@@ -75,10 +77,33 @@ func TestC15(t *testing.T) {
 					if err != nil {
 						continue
 					}
+					type badFrame struct {
+						bad  []byte
+						kind string
+						k    uint64
+					}
+					var bads []badFrame
 					for j := 0; j < 6; j++ {
 						counter++
 						k := seed + counter*0x9e3779b97f4a7c15
 						bad, kind := corrupt(raw, k)
+						bads = append(bads, badFrame{bad, kind, k})
+					}
+					// well-formed protobuf with one optional part left out (a peer may omit any field)
+					var shell proto.Message = &types.ProtoWorkObjectBlockView{}
+					if e.name == "header-view" {
+						shell = &types.ProtoWorkObjectHeaderView{}
+					}
+					var dropped []fieldVariant
+					if bi.Number%3 == 0 {
+						dropped = dropFieldVariants(raw, shell)
+					}
+					for _, fv := range dropped {
+						bads = append(bads, badFrame{fv.raw, "field-dropped", uint64(len(bads))})
+						simkit.Global.Seen("dropped_field", fv.path)
+					}
+					for _, bf := range bads {
+						bad, kind, k := bf.bad, bf.kind, bf.k
 						simkit.Global.Inc("fault.corrupt." + kind)
 						perr := guarded(func() error {
 							var data interface{}
@@ -297,4 +322,60 @@ func feedDonorFrames(blk *types.WorkObject, seed uint64, counter *uint64, fail f
 		}
 	}
 	return nil
+}
+
+type fieldVariant struct {
+	path string
+	raw  []byte
+}
+
+// dropFieldVariants decodes raw into shell and returns one re-encoding per populated message- or bytes-typed field (down to
+// depth 4) with exactly that field cleared.
+func dropFieldVariants(raw []byte, shell proto.Message) []fieldVariant {
+	if err := proto.Unmarshal(raw, shell); err != nil {
+		return nil
+	}
+	var paths [][]protoreflect.FieldDescriptor
+	var walk func(m protoreflect.Message, prefix []protoreflect.FieldDescriptor, depth int)
+	walk = func(m protoreflect.Message, prefix []protoreflect.FieldDescriptor, depth int) {
+		m.Range(func(fd protoreflect.FieldDescriptor, v protoreflect.Value) bool {
+			if fd.IsList() || fd.IsMap() {
+				return true
+			}
+			if fd.Kind() == protoreflect.MessageKind || fd.Kind() == protoreflect.BytesKind {
+				p := append(append([]protoreflect.FieldDescriptor{}, prefix...), fd)
+				paths = append(paths, p)
+				if fd.Kind() == protoreflect.MessageKind && depth < 4 {
+					walk(v.Message(), p, depth+1)
+				}
+			}
+			return true
+		})
+	}
+	walk(shell.ProtoReflect(), nil, 0)
+	sort.Slice(paths, func(i, j int) bool { return pathName(paths[i]) < pathName(paths[j]) })
+	var out []fieldVariant
+	for _, p := range paths {
+		c := proto.Clone(shell)
+		m := c.ProtoReflect()
+		for _, fd := range p[:len(p)-1] {
+			m = m.Mutable(fd).Message()
+		}
+		m.Clear(p[len(p)-1])
+		if b, err := (proto.MarshalOptions{Deterministic: true}).Marshal(c); err == nil {
+			out = append(out, fieldVariant{pathName(p), b})
+		}
+	}
+	return out
+}
+
+func pathName(p []protoreflect.FieldDescriptor) string {
+	s := ""
+	for i, fd := range p {
+		if i > 0 {
+			s += "."
+		}
+		s += string(fd.Name())
+	}
+	return s
 }
